@@ -150,9 +150,29 @@ def specFirst (log : List Version) (asof : Option Int) : TS :=
     | none => logRows log
   (dates pubs).map fun d => (d, firstVal (group d pubs))
 
+/-- the clause "what=0 returns the first value published per date" as it is written: per date published by `T`, the value of
+    its first publication in merge order (NaN if that publication was NaN) -/
+def specFirstLiteral (log : List Version) (asof : Option Int) : TS :=
+  let pubs := match asof with
+    | some T => (logRows log).filter (fun r => decide (r.stamp ≤ T))
+    | none => logRows log
+  (dates pubs).map fun d => (d, (group d pubs).head?.bind (·.val))
+
 /-- the store after merging the versions of `log` one by one, starting from `None` -/
 def history (log : List Version) : Option Store :=
   log.foldl (fun st v => some (biMerge st (Bi v.ts v.stamp))) none
+
+/-- one `bi_merge` call of a history, with the input the code rejects (`biMergeE`) -/
+def mergeStepE (acc : Res (Option Store)) (v : Version) : Res (Option Store) :=
+  match acc with
+  | .error e => .error e
+  | .ok st => match biMergeE st (Bi v.ts v.stamp) with
+    | .error e => .error e
+    | .ok s => .ok (some s)
+
+/-- the history as the code runs it: `bi_merge` raises `ValueError` when both frames are empty (`pd.concat([])`), and the
+    exception ends the history -/
+def historyE (log : List Version) : Res (Option Store) := log.foldl mergeStepE (.ok none)
 
 /-- the store after merging batches of versions (each batch handed to one `bi_merge` call as a list) -/
 def historyL (batches : List (List Version)) : Option Store :=
